@@ -1247,9 +1247,10 @@ func (pt ProvidedType) Field() *Field {
 // bindShouldUsePointer loads the wire package the user is importing from their
 // injector. The call is a wire marker function call.
 func bindShouldUsePointer(info *types.Info, call *ast.CallExpr) bool {
-	// These type assertions should not fail, otherwise panic.
-	fun := call.Fun.(*ast.SelectorExpr)                 // wire.Bind
-	pkgName := fun.X.(*ast.Ident)                       // wire
-	wireName := info.ObjectOf(pkgName).(*types.PkgName) // wire package
-	return wireName.Imported().Scope().Lookup("bindToUsePointer") != nil
+	// call.Fun is wire.Bind, or plain Bind if the wire package is dot-imported.
+	fn := qualifiedIdentObject(info, call.Fun)
+	if fn == nil || fn.Pkg() == nil {
+		return false
+	}
+	return fn.Pkg().Scope().Lookup("bindToUsePointer") != nil
 }
